@@ -28,6 +28,9 @@
 #include <stdlib.h>
 #include <string.h>
 #include <inttypes.h>
+#include <signal.h>
+#include <unistd.h>
+#include <sys/time.h>
 
 #include "upipe/ubase.h"
 #include "upipe/umem.h"
@@ -130,8 +133,32 @@ static void audit(struct uref *uref)
     }
 }
 
+/* a command of the code under test that does not return must cost seconds and
+ * be attributable: every command runs under a CPU-time timer (ITIMER_PROF: the
+ * accessors never block, a command that does not return is a busy loop, and CPU
+ * time is immune to the load of the machine) with a long wall-clock alarm as a
+ * backstop; on expiry: exit status 5 and no result line for that command.
+ * Results are flushed command by command. */
+static void on_alarm(int sig)
+{
+    (void)sig;
+    _exit(5);
+}
+
+static void arm(unsigned cpu_s, unsigned wall_s)
+{
+    struct itimerval it = { { 0, 0 }, { cpu_s, 0 } };
+    setitimer(ITIMER_PROF, &it, NULL);
+    alarm(wall_s);
+}
+
 int main(void)
 {
+    unsigned alarm_s = 2;           /* CPU seconds per command */
+    if (getenv("REPLAY_ALARM_S") != NULL && atoi(getenv("REPLAY_ALARM_S")) > 0)
+        alarm_s = atoi(getenv("REPLAY_ALARM_S"));
+    signal(SIGALRM, on_alarm);
+    signal(SIGPROF, on_alarm);
     struct umem_mgr *umem_mgr = umem_alloc_mgr_alloc();
     struct udict_mgr *udict_mgr = udict_inline_mgr_alloc(2, umem_mgr, -1, -1);
     /* pool depth 2: urefs are recycled, so a dup that forgets a field shows
@@ -153,6 +180,7 @@ int main(void)
         const char *ret = "-";
         int has_val = 0;
         uint64_t val = 0;
+        arm(alarm_s, 60);
 
         if (!strcmp(cmd, "reset")) {
             uref_free(uref);
@@ -235,6 +263,8 @@ int main(void)
         else
             printf(" *");
         printf("\n");
+        fflush(stdout);
+        arm(0, 0);
     }
     fflush(stdout);
 
